@@ -140,10 +140,62 @@ def mir_part(tier):
             else:
                 st.proved += 1
         st.samples.append(dict(registry_histories=len(hists)))
+        # (E2) two Python threads inside the extension at once: every interleaving of the lock operations (registry mutex, GIL)
+        runs = 0
+        for ops in (("next", "next"), ("next", "exit"), ("exit", "exit")):
+            st.proves += 1
+            problems, lstat = mirx.lock_schedules(fns, ops)
+            runs += lstat["runs"]
+            st.paths += lstat["runs"]
+            if problems:
+                p0 = problems[0]
+                if p0["kind"] not in reg_seen:
+                    reg_seen.add(p0["kind"])
+                    st.cex.append(dict(msg=f"pyo3 layer: {p0['what']}", model={},
+                                       info=dict(kind="registry-" + p0["kind"], ops=list(ops), threads=2)))
+            else:
+                st.proved += 1
+        st.samples.append(dict(lock_interleavings=runs))
     except Inconclusive as inc:
         st.inconclusive.append(f"iterator registry: {inc}")
     st.notes = dict(mir=info, functions=names)
     return st
+
+
+def two_threads_replay(ext):
+    """Two Python threads, each consuming its own native iterator completely (several rounds).  A lock-order deadlock in
+    the extension freezes the whole interpreter: the caller runs this in a sub-process with a watchdog."""
+    with common.scratch_dir("vt15h_") as tmp:
+        from sedpack.io import Attribute
+        files, want = {}, {}
+        for h in (0, 1):
+            d = fillerlab.make_dataset(tmp / f"ds{h}", ft="fb", eps=2, attrs=[Attribute(name="a", dtype="int32", shape=(2,))], compression="")
+            with d.filler() as f:
+                for v in range(40):
+                    f.write_example(values={"a": np.array([1000 * h + v] * 2, np.int32)}, split="train")
+            files[h] = [str(d.path / si.file_infos[0].file_path) for si in d.shard_info_iterator("train")]
+            want[h] = [1000 * h + v for v in range(40)]
+        out = {}
+
+        def consume(h):
+            got = []
+            for _round in range(5):
+                it = ext.RustIter(files=files[h], repeat=False, threads=2, compression="")
+                with it:
+                    for r in it:
+                        got.append(int(np.frombuffer(bytes(r[0]), dtype="<i4")[0]))
+            out[h] = got
+        ths = [threading.Thread(target=consume, args=(h,), daemon=True) for h in (0, 1)]
+        for t in ths:
+            t.start()
+        for t in ths:
+            t.join(40)
+        if any(t.is_alive() for t in ths):
+            return "two Python threads each consuming its own native iterator: not finished after 40 s (deadlock)"
+        for h in (0, 1):
+            if out.get(h) != want[h] * 5:
+                return f"thread {h} read {str(out.get(h))[:80]} instead of its own examples"
+    return None
 
 
 def registry_replay(ext, history):
@@ -296,6 +348,9 @@ def run_diff_subprocess(so_path, case, timeout=90):
         r = subprocess.run([sys.executable, "-m", "vtlib.checks.c15", so_path, json.dumps(case)], capture_output=True, text=True,
                            timeout=timeout, cwd=str(common.VERIF))
     except subprocess.TimeoutExpired:
+        if isinstance(case, dict) and "two_threads" in case:
+            return (f"two Python threads, each consuming its own native iterator, froze the whole interpreter for more than {timeout} s "
+                    f"(lock-order deadlock between the registry mutex and the GIL)")
         if isinstance(case, dict):
             return f"the process replaying {case} froze for more than {timeout} s"
         n_shards, per, T, comp, take, decl = case
@@ -420,6 +475,7 @@ def run(tier, seed):
         functions=FUNCS,
         bounds=dict(items="0..5 quick / 0..8 thorough", threads="1..4 quick / 1..6 thorough", drop_positions="every next() count 0..n+2",
                     registry="all interleavings of new/enter/next/exit of <= 3 iterators (quick: enter+next atomic for 3)",
+                    locks="2 Python threads x (next|exit) on their own iterators: every interleaving of the lock operations (registry mutex, GIL)",
                     usize="all 64-bit values (inductive steps)", rust_functions=RUST_FUNCS),
         stats=st.as_dict(), samples=st.samples,
         assumptions=["std::sync::mpsc: unbounded FIFO, recv blocks, Err only when empty and the sender was dropped; send fails only when the "
@@ -447,6 +503,9 @@ def replay(case):
                 return True, f"real extension with a consumer pausing {secs} s after the first example yields {out}, the Python reader {py}"
         return False, "a pausing consumer still gets the Python reader's sequence"
     so_path, _ = rustlab.build_so()
+    if kind.startswith("registry-") and case.get("threads"):
+        bad = run_diff_subprocess(so_path, dict(two_threads=case.get("ops", ["next", "next"])), timeout=60)
+        return bad is not None, bad or "two Python threads consumed their own native iterators to the end"
     if kind.startswith("registry-"):
         bad = run_diff_subprocess(so_path, dict(registry=case["history"]))
         return bad is not None, bad or "the rebuilt extension serves every handle from its own iterator in this history"
@@ -477,7 +536,9 @@ if __name__ == "__main__":
     common.import_sedpack()
     _ext = rustlab.load_so(sys.argv[1])
     _case = json.loads(sys.argv[2])
-    if isinstance(_case, dict) and "registry" in _case:
+    if isinstance(_case, dict) and "two_threads" in _case:
+        print("RESULT " + json.dumps(two_threads_replay(_ext)), flush=True)
+    elif isinstance(_case, dict) and "registry" in _case:
         print("RESULT " + json.dumps(registry_replay(_ext, [tuple(x) for x in _case["registry"]])), flush=True)
     else:
         print("RESULT " + json.dumps(differential_case(_ext, *_case)), flush=True)
